@@ -73,7 +73,8 @@ impl Prop for C10 {
         }
         let a = graph_strategy(&ALL_KINDS, 0, 12, sparse, &[0], 5);
         let b = graph_strategy(&ALL_KINDS, 0, 12, dense, &[0, 1], 2);
-        (prop_oneof![3 => a, 1 => b], any::<u8>()).prop_map(|(g, k)| CompCase { g, k }).boxed()
+        let c = graph_strategy(&ALL_KINDS, 13, 30, sparse, &[0], 5);
+        (prop_oneof![6 => a, 2 => b, 1 => c], any::<u8>()).prop_map(|(g, k)| CompCase { g, k }).boxed()
     }
     fn random_cases(&self, tier: Tier) -> u32 {
         tier.pick(300_000, 3_000_000)
